@@ -145,7 +145,7 @@ def run(ctx):
             U = rand_int_kv(rng, pmax=3, nintmax=2) if rng.random() < 0.5 else rand_dyadic_kv(rng, pmax=3, nintmax=2)
             n_ = kv_info(U)[1]
             P = rand_points(rng, n_, rng.choice([1, 2]))
-            W = rand_weights(rng, n_, rng.choice(["none", "pos"]))
+            W = rand_weights(rng, n_, rng.choice(["none", "pos", "neg"]))
         if i % 7 == 3 and len(P[0]) > 1 and len(P) > 2:
             P[-1] = P[0]                     # closed curve: first and last control point are the same object
             if W is None:
